@@ -74,7 +74,10 @@ def _homepage(path):
     import posixpath
     p = path.strip().rstrip("/")
     p, _ = posixpath.splitext(p)
-    return p in ("", "/index", "/home")
+    if p in ("", "/index", "/home"):
+        return True
+    # the statement does not say which spellings of an index page count: a case variant ('/Index.html') is left to the library (None = no claim)
+    return None if p.lower() in ("/index", "/home") else False
 
 
 L_PATH = re.compile(r"^/[0-9a-zA-Z]{3,}/?$")
@@ -111,6 +114,9 @@ def _fn(pred):
     raise KeyError(pred)
 
 
+_PROTO_LIKE = __import__("re").compile(r"^[a-zA-Z]{0,64}:?//")
+
+
 def eval_site(case):
     from urllib.parse import urlsplit
     pred, rest = case["pred"], case["rest"]
@@ -121,6 +127,8 @@ def eval_site(case):
     exp = expected(pred, host, r["path"])
     fn = _fn(pred)
     forms = {"with-scheme": full, "scheme-less": rest, "slashes": "//" + rest}
+    if _PROTO_LIKE.match(rest):
+        del forms["scheme-less"]      # 'exvg//x' carries a protocol by the library's documented notion (<= 64 letters, optional ':', '//'): it is not the scheme-less form of anything
     try:
         forms["SplitResult"] = urlsplit(full)
     except ValueError:
@@ -164,7 +172,7 @@ def eval_invariance(case):
 
 EVALUATORS = {"site": eval_site, "invariance": eval_invariance}
 
-PATHS = ["", "/", "/abc", "/index.html", "/a/b?x=1", "?x=1", "#f", "/aB3/", ":8080/x", ":443"]
+PATHS = ["", "/", "/abc", "/index.html", "/a/b?x=1", "?x=1", "#f", "/aB3/", ":8080/x", ":443", "//abc", "//", "//a.com/x"]   # a path may start with an empty segment
 
 
 def host_variants(d):
@@ -183,7 +191,7 @@ def host_variants(d):
 
 
 def decoys(d):
-    return ["/x.%s/" % d, "/@%s" % d, "/%s" % d, "/a?u=%s" % d, "?x=@%s/" % d, "#x@%s/" % d, "#.%s" % d, "/p#@%s" % d,
+    return ["//x.%s/" % d, "/x.%s/" % d, "/@%s" % d, "/%s" % d, "/a?u=%s" % d, "?x=@%s/" % d, "#x@%s/" % d, "#.%s" % d, "/p#@%s" % d,
             "/http://%s/" % d, "?url=http://%s" % d]
 
 
@@ -276,7 +284,7 @@ def _enum_invariance(acc, shard, nshards, seed, tier):
                 if idx % nshards != shard:
                     continue
                 c = {"kind": "invariance", "pred": pred, "a": base, "b": scheme + h + p + t, "component": "path"}
-                if pred == "is_homepage":
+                if pred == "is_homepage" and _homepage(p) is not None:
                     c["expected"] = _homepage(p)
                 acc.check(c, h != "example.com" or t != "", [pred])
     for pred in ("has_special_host", "get_hostname"):
